@@ -75,6 +75,13 @@ K void k_ss_swap_free(void*, void*) {}
 // =====================================================================================================================
 K u64 k_fs_sizeof() { return sizeof(FS); }
 K void k_fs_new(void* p) { ::new (p) FS; }
+// pre-state installation: flat_set(sorted_unique, container&&) adopts a container whose keys are already increasing
+K void k_fs_make_sorted(void* p, PV const* vals, u64 cnt)
+{
+    SV c;
+    for (u64 i = 0; i < cnt; i++) c.emplace_back((int)vals[i]);
+    ::new (p) FS(etl::sorted_unique, etl::move(c));
+}
 K void k_fs_dtor(void* p) { FSR(p).~FS(); }
 K u64 k_fs_size(void const* p) { return FSC(p).size(); }
 K u64 k_fs_data_off(void const* p) { return off_of(p, FSC(p).begin()); }
